@@ -44,24 +44,34 @@ NEEDS.update({
  "C13c": "BSpline evaluation strictly inside (t_max, t_max+dt): upper clamp off by one, evaluates on K control points",
  "C19c": "ad_sparse on a matrix that already holds non-zero stored values (re-used for a second tangent): missing setZero, result accumulates",
 })
+NEEDS.update({
+ "C02d": "SE_K_3<K>::log with K >= 3: i-th translation block read with stride K+1 instead of 3 (K=2: identical)",
+ "C07d": "AnyManifold wrapping a value with run-time dof (VectorXd, std::vector<M>, variant): dof() returns the compile-time Dof<M> = -1",
+ "C10d": "solve_linear_ldlt with a ROW-MAJOR non-square J (sparse): regularisation loop bounded by J.outerSize() (= rows) instead of the number of unknowns",
+ "C12d": "FixedCubic with a non-identity start pose on a non-commutative group: relative end pose gb*ga^-1 instead of ga^-1*gb",
+ "C14d": "fit_spline on a non-commutative group with a degree >= 5 specification (MinDerivative): inverse factors of the middle-control correction multiplied in the wrong order",
+ "C17d": "SO2(std::complex) / C1::so2() with |z| != 1: divides by std::norm (squared magnitude)",
+ "C18d": "two threads calling d2r_exp_sparse / d2r_expinv_sparse (dense fall-back, e.g. SE2, SO3, SE3) concurrently: function-local static scratch Hessian shared between threads",
+ "C20d": "integrate_absolute_polynomial for a quadratic whose two real roots both lie left of the interval: lower clamp of the larger root dropped",
+})
 conf = {}
-for f in ("/tmp/confirm_all.out", "/tmp/confirm_all2.out", "/tmp/confirm_all3.out", "/tmp/confirm_all4.out", "/tmp/confirm_all5.out"):
+for f in ("/tmp/confirm_all.out", "/tmp/confirm_all2.out", "/tmp/confirm_all3.out", "/tmp/confirm_all4.out", "/tmp/confirm_all5.out", "/tmp/confirm_all6.out"):
     if os.path.exists(f):
         for l in open(f):
-            m = re.match(r"CONFIRM (C\d+[bc]?): demo with change exit=(\d+), without exit=(\d+)", l)
+            m = re.match(r"CONFIRM (C\d+[bcd]?): demo with change exit=(\d+), without exit=(\d+)", l)
             if m:
                 conf[m.group(1)] = (int(m.group(2)), int(m.group(3)))
 import glob as _g
 for f in _g.glob("/tmp/seed_C*/confirm_demo.txt"):
     for l in open(f):
-        m = re.match(r"CONFIRM (C\d+[bc]?): demo with change exit=(\d+), without exit=(\d+)", l)
+        m = re.match(r"CONFIRM (C\d+[bcd]?): demo with change exit=(\d+), without exit=(\d+)", l)
         if m:
             conf.setdefault(m.group(1), (int(m.group(2)), int(m.group(3))))
 tries = {}
-for f in ("/tmp/try_all.out", "/tmp/try_all2.out", "/tmp/try_all3.out", "/tmp/try_all4.out", "/tmp/try_all5.out", "/tmp/try_all6.out", "/tmp/try_all7.out"):
+for f in ("/tmp/try_all.out", "/tmp/try_all2.out", "/tmp/try_all3.out", "/tmp/try_all4.out", "/tmp/try_all5.out", "/tmp/try_all6.out", "/tmp/try_all7.out", "/tmp/try_all8.out", "/tmp/try_all9.out"):
     if os.path.exists(f):
         for l in open(f):
-            m = re.match(r"TRY seed=(C\d+[bc]?) check=(C\d+) exit=(\d+) : (\d+) violations; (.*)", l)
+            m = re.match(r"TRY seed=(C\d+[bcd]?) check=(C\d+) exit=(\d+) : (\d+) violations; (.*)", l)
             if m:
                 tries[m.group(1)] = dict(check=m.group(2), exit=int(m.group(3)), violations=int(m.group(4)), summary=m.group(5).strip())
 for sid in sorted(NEEDS):
